@@ -236,6 +236,11 @@ func (s *Sched) spawn(name string, f func(), parent *Thread) *Thread {
 		t.vc = s.races.spawnVC(parent, t)
 	}
 	s.threads = append(s.threads, t)
+	if parent != nil {
+		for _, h := range spawnHooks {
+			h(t.id, name)
+		}
+	}
 	go func() {
 		<-t.wake
 		defer func() {
@@ -614,7 +619,12 @@ var traceHooks []func(name string, args []any)
 
 // OnTrace registers a hook called for every Trace event (harness monitors). Reset with ClearTraceHooks.
 func OnTrace(h func(name string, args []any)) { traceHooks = append(traceHooks, h) }
-func ClearTraceHooks()                        { traceHooks = nil }
+func ClearTraceHooks()                        { traceHooks = nil; spawnHooks = nil }
+
+var spawnHooks []func(id int, name string)
+
+// OnSpawn registers a hook called (in the parent's context) whenever a sim thread is spawned by another thread.
+func OnSpawn(h func(id int, name string)) { spawnHooks = append(spawnHooks, h) }
 
 // CurrentThread returns id and name of the running sim thread.
 func CurrentThread() (int, string) {
